@@ -16,6 +16,7 @@ import (
 	"runtime"
 	"strings"
 	"sync"
+	"sync/atomic"
 	"time"
 
 	"github.com/blinklabs-io/gouroboros/cbor"
@@ -234,7 +235,24 @@ func (f *g3Fixture) peerSendMsgs(msgs ...protocol.Message) error {
 }
 
 // waitFor blocks until pred(events) holds or the timeout expires.
+// g3StuckCount counts synchronisation waits that ran into g3Deadline in this process.  After a
+// few of them the verdict of the run is a violation anyway, and the remaining ops use a short
+// deadline so that a hanging engine does not make the check run for hours.
+var g3StuckCount atomic.Int32
+
 func (f *g3Fixture) waitFor(timeout time.Duration, pred func(ev []g3Event, wire []uint8) bool) bool {
+	sync := timeout == g3Deadline
+	if sync && g3StuckCount.Load() >= 3 {
+		timeout = 5 * time.Second
+	}
+	ok := f.waitFor1(timeout, pred)
+	if sync && !ok {
+		g3StuckCount.Add(1)
+	}
+	return ok
+}
+
+func (f *g3Fixture) waitFor1(timeout time.Duration, pred func(ev []g3Event, wire []uint8) bool) bool {
 	deadline := time.Now().Add(timeout)
 	stop := make(chan struct{})
 	defer close(stop)
